@@ -568,12 +568,15 @@ func (p *Parser) parseASCIIFast(maxSize int) (secs2.Item, error) {
 }
 
 func (p *Parser) checkASCIICloseQuote(idx int, quoteCh byte) (bool, int) {
-	if idx+1 >= p.len || idx >= p.len || p.data[idx] != quoteCh {
+	// idx indexes p.data (the REMAINING input), so it is bounded by len(p.data) — not by p.len, the
+	// length of the whole input, which let the scan below index past the end of p.data.
+	n := len(p.data)
+	if idx+1 >= n || p.data[idx] != quoteCh {
 		return false, 0
 	}
 
 	// skip space characters
-	for nidx := idx + 1; nidx < p.len; nidx++ {
+	for nidx := idx + 1; nidx < n; nidx++ {
 		switch p.data[nidx] {
 		case ' ', '\t', '\r', '\n':
 			continue
